@@ -589,6 +589,8 @@ pub enum Dev {
     Reorder(u8),
     /// the tag's entry sits behind the immutable region (appended like rpm appends install-time tags)
     Behind(u32),
+    /// fields of the (obsolete) lead: package type, architecture number, OS number — no accessor reads the lead
+    Lead(u16, u16, u16),
 }
 
 fn variants(v: &Val) -> Vec<Val> {
@@ -703,7 +705,15 @@ fn build(base: &[(u32, Val)], devs: &[&Dev]) -> Vec<u8> {
         }
     }
     let s = RawHeader::layout_region(62, &sig);
-    assemble(&RawLead::new("nm"), &s, 0, &h, b"").0
+    let mut lead = RawLead::new("nm");
+    for d in devs.iter() {
+        if let Dev::Lead(ptype, arch, os) = d {
+            lead.ptype = *ptype;
+            lead.arch = *arch;
+            lead.os = *os;
+        }
+    }
+    assemble(&lead, &s, 0, &h, b"").0
 }
 
 struct Group {
@@ -811,11 +821,16 @@ pub fn sweeps(ctx: &Ctx) -> Vec<Sweep> {
     let k = 2;
     let _ = ctx;
     let mut v = vec![];
-    for g in groups() {
+    let mut gs: Vec<(Group, bool)> = groups().into_iter().map(|g| (g, false)).collect();
+    // the group with the i18n accessors once more in worker processes that run under a German locale
+    gs.push((groups().into_iter().find(|g| g.name == "scalars").expect("scalars group"), true));
+    for (g, german) in gs {
         let mut m = menu(&base, &g.tags);
         m.extend(g.extra.iter().cloned());
         m.push(Dev::Reorder(1));
         m.push(Dev::Reorder(2));
+        m.push(Dev::Lead(1, 1, 1)); // a lead that claims "source package"
+        m.push(Dev::Lead(0, 255, 7));
         for tag in g.tags.iter().take(4) {
             m.push(Dev::Behind(*tag));
         }
@@ -824,12 +839,14 @@ pub fn sweeps(ctx: &Ctx) -> Vec<Sweep> {
         let n = 1 + nm + if k >= 2 { nm * nm } else { 0 };
         let base = base.clone();
         let accessors = g.accessors.clone();
-        let name = format!("dev-{}", g.name);
+        let name = if german { format!("dev-{}@de_DE", g.name) } else { format!("dev-{}", g.name) };
         let rule = format!(
-            "complete well-formed base header with pairwise distinct byte-asymmetric values; all 0-, 1-{} deviation variants over the {} tags of group '{}' from a menu of {} deviations (drop tag; retype to each other type; count 0 / n−1 / n+1; empty, short, multi-byte, invalid-UTF-8 values; 1–3 locales; 32/64-bit size variants; out-of-range dir index; every digest algorithm; upper-case hex digests; optional arrays; index entries reversed / rotated; entries behind the immutable region); accessors {:?} compared with an independent decoding; non-trivial = accepted and well-formed, hence judged",
+            "complete well-formed base header with pairwise distinct byte-asymmetric values; all 0-, 1-{} deviation variants over the {} tags of group '{}' from a menu of {} deviations (drop tag; retype to each other type; count 0 / n−1 / n+1; empty, short, multi-byte, invalid-UTF-8 values; 1–3 locales; 32/64-bit size variants; out-of-range dir index; every digest algorithm; upper-case hex digests; optional arrays; index entries reversed / rotated; entries behind the immutable region; lead fields that disagree with the header); accessors {:?} compared with an independent decoding; non-trivial = accepted and well-formed, hence judged",
             if k >= 2 { " and 2-" } else { "" }, g.tags.len(), g.name, nm, accessors
         );
         let nm2 = name.clone();
+        let rule = if german { format!("{} — the same sweep in worker processes started with LANG / LC_ALL / LC_MESSAGES = de_DE.UTF-8 and LANGUAGE = de_DE:de (what a header stores does not depend on the reader's locale)", rule) } else { rule };
+        let env: &[(&str, &str)] = if german { &crate::sweep::LOCALE_DE } else { &[] };
         v.push(Sweep::new(&nm2, rule, n, move |i, acc| {
             let devs: Vec<&Dev> = if i == 0 {
                 vec![]
@@ -852,7 +869,7 @@ pub fn sweeps(ctx: &Ctx) -> Vec<Sweep> {
                     acc.sample(i, || json!({"group": name, "deviations": format!("{:?}", devs)}));
                 }
             }
-        }));
+        }).with_env(env));
     }
     // typed getters: each tag of a small set retyped to every type with counts 0..2
     let base2 = Arc::new(base_records());
